@@ -7,7 +7,7 @@ skip = set(sys.argv[2:])
 for r in sorted(rs, key=lambda r: (r["line"] or 0)):
     if r["verdict"] == "killed" or r["qual"] in skip:
         continue
-    d = [l for l in r["diff"].splitlines() if l[:1] in "+-" and not l.startswith(("+++", "---"))]
+    d = [l for l in r.get("diff","").splitlines() if l[:1] in "+-" and not l.startswith(("+++", "---"))]
     print(f"#{r['idx']} L{r['line']} {r['qual']} [{r['desc']}] {r['verdict']} {r.get('detail','')[:100]}")
     for l in d[:4]:
         print("    " + l[:190])
